@@ -160,6 +160,15 @@ def corpus():
         # the witness of fixes/C02F-1: the no-connected port is referred to inside a concatenation whose part a slice then drops -
         # before the repair elaborate, to_proto and netlist all returned
         ("n_nc_ref", top([i("i0", [["a", ["nc", 1, None]]]), i("i1", [["a", ["sl", ["cat", [s, s, ref]], ["s", 0, 2, None]]]])], [["s", 1]])),
+        # ... and the witness on the repaired HEAD e4afce8: the same with a reference loop, i1 = W(a=i2.a, b=NoConn()); i2 = W(a=Concat(i1.b, i1.a)[1], b=u).
+        # untie_source_loops (fixes/C01F-1) rebuilds the source bit by bit and never looks at the part that holds the unresolved reference
+        ("n_nc_ref", dict(mods=[dict(name="Two", ports=[["a", 1, "none"], ["b", 1, "none"]], sigs=[],
+                                     insts=[dict(name="r0", n=0, of=["prim", "R", 1], conns=[["p", ["sig", "a"]], ["n", ["sig", "b"]]])]),
+                                dict(name="Top", ports=[], sigs=[["u", 1]],
+                                     insts=[dict(name="i1", n=0, of=["mod", 0], conns=[["a", ["ref", "i2", "a"]], ["b", ["nc", 1, None]]]),
+                                            dict(name="i2", n=0, of=["mod", 0],
+                                                 conns=[["a", ["sl", ["cat", [["ref", "i1", "b"], ["ref", "i1", "a"]]], ["i", 1]]], ["b", ["sig", "u"]]])])],
+                          exts=[], top=1)),
         ("nc_inside", top([i("i0", [["a", two(s, ["nc", 1, None])]])], [["s", 1]])),                                     # the constructors refuse
         ("missing", top([i("i0", []), i("i1", [["a", two(s, s)]])], [["s", 1]])),
     ]
@@ -174,7 +183,7 @@ def c_case(c02, design, out):
 
 def nested_cases(c02, tier, seed, bases, per_class):
     quick = tier == "quick"
-    nb = c01f.nested_designs(seed, 26 if quick else 120)
+    nb = c01f.nested_designs(seed, 20 if quick else 120)
     designs = [d for _, d in corpus()]
     metas = [dict(cls="corpus:" + c, kind="corpus") for c, _ in corpus()]
     for k, b in enumerate(nb):
@@ -349,7 +358,7 @@ def bundle_cases(tier, seed):
     quick = tier == "quick"
     bases = list(c01g.corpus()) + list(c01b.corpus())
     k = 0
-    want = len(bases) + (14 if quick else 120)
+    want = len(bases) + (10 if quick else 120)
     while len(bases) < want:
         r = core.rng(seed, "C02F", "bbase", k)
         k += 1
